@@ -114,4 +114,10 @@ def jobs(tier, seed=0):
         if cc == "WOR":
             s = to_global(s)
         res.append(dict(cc=cc, preset=name, options=s))
+    # histories: the same title is run twice with different options (longer horizon first), so that every table of the
+    # second run is written over one that already exists
+    for cc, name in ([("DJI", "net_baseline"), ("LSO", "net_nuclear_winter")] if tier == "quick" else
+                     [("DJI", "net_baseline"), ("LSO", "net_nuclear_winter"), ("NZL", "ms_worst"), ("EST", "net_nuclear_resilient")]):
+        main = dict(copy.deepcopy(P[name]), NMONTHS=60)
+        res.append(dict(cc=cc, preset=name + "_rerun", options=main, prelude=dict(copy.deepcopy(P[name]), NMONTHS=96, waste="zero")))
     return res
